@@ -101,6 +101,20 @@ fn doc_versions() -> Vec<(String, String)> {
     v
 }
 
+/// (reader-required mask, writer-required mask) from the documentation table
+fn required_masks() -> (u64, u64) {
+    static M: std::sync::OnceLock<(u64, u64)> = std::sync::OnceLock::new();
+    *M.get_or_init(|| {
+        let mut r = 0u64;
+        let mut w = ff::FLAG_DISABLE_TRANSACTION_FILE;
+        for d in doc_flags() {
+            if d.reader { r |= d.bit; }
+            if d.writer { w |= d.bit; }
+        }
+        (r, w)
+    })
+}
+
 // ------------------------------------------------------------------------------------------------
 // (a) flag words
 
@@ -132,11 +146,11 @@ fn check_word(w: u64) -> Vec<Violation> {
     out
 }
 
-fn flag_words(cov: &mut Cov, viol: &mut Vec<Violation>) {
+fn flag_words(cov: &mut Cov, viol: &mut Vec<Violation>, low_bits: u32) {
     let mut his = vec![0u64];
-    his.extend((10..64).map(|b| 1u64 << b));
+    his.extend((low_bits..64).map(|b| 1u64 << b));
     for hi in his {
-        for low in 0u64..1024 {
+        for low in 0u64..(1u64 << low_bits) {
             let w = low | hi;
             let unknown = w & !KNOWN != 0;
             // non-trivial: the word mixes known and unknown bits (must still be refused), or is a
@@ -244,13 +258,17 @@ fn check_apply(case: &Value) -> Vec<Violation> {
     let all_rid = frags.iter().all(|f| f.1 != 0);
     let want_rid = any_rid || stable;
     let expect_err = want_rid && !all_rid;
-    let mut rd = 0u64;
-    let mut wr = 0u64;
-    if any_del { rd |= 1; wr |= 1; }
-    if want_rid { rd |= 2; wr |= 2; }
-    if config { wr |= 8; }
-    if base { rd |= 16; wr |= 16; }
-    if notxn { wr |= 32; }
+    // which side must know each content bit: the documentation table (bit 32, which the table does
+    // not list, is writer-only by the constant's doc comment)
+    let (rmask, wmask) = required_masks();
+    let mut present = 0u64;
+    if any_del { present |= 1; }
+    if want_rid { present |= 2; }
+    if config { present |= 8; }
+    if base { present |= 16; }
+    if notxn { present |= 32; }
+    let rd = present & rmask;
+    let wr = present & wmask;
     let mut v = |key: &str, what: String| out.push(Violation::new("flags-apply", key, what, case.clone()));
     match vcore::catch(|| ff::apply_feature_flags(&mut m, stable, notxn)) {
         Err(p) => v("flags/apply/panic", format!("apply_feature_flags panicked: {p}")),
@@ -298,16 +316,30 @@ fn check_apply(case: &Value) -> Vec<Violation> {
     out
 }
 
-fn apply_cases() -> Vec<Value> {
+fn apply_cases(max_frags: usize) -> Vec<Value> {
     let mut frag_sets: Vec<Vec<(usize, usize)>> = vec![vec![]];
-    for d in 0..3 { for r in 0..3 { frag_sets.push(vec![(d, r)]); } }
-    for d in 0..3 { for r in 0..3 { for d2 in 0..3 { for r2 in 0..3 { frag_sets.push(vec![(d, r), (d2, r2)]); } } } }
+    let mut level: Vec<Vec<(usize, usize)>> = vec![vec![]];
+    for _ in 0..max_frags {
+        let mut next = vec![];
+        for l in &level {
+            for d in 0..3 {
+                for r in 0..3 {
+                    let mut l2 = l.clone();
+                    l2.push((d, r));
+                    next.push(l2);
+                }
+            }
+        }
+        frag_sets.extend(next.iter().cloned());
+        level = next;
+    }
     let mut v = vec![];
     for fs in &frag_sets {
         vcore::smallx::product(&[2, 2, 2, 2, 2, 3], |ix| {
+            let prev = [0u64, u64::MAX, 64][ix[5]];
             v.push(json!({"kind":"apply_flags","frags":fs.iter().map(|(a,b)| vec![*a,*b]).collect::<Vec<_>>(),
                 "config":ix[0]==1,"tmeta":ix[1]==1,"base":ix[2]==1,"stable":ix[3]==1,"notxn":ix[4]==1,
-                "prev":[0u64, u64::MAX, 64][ix[5]]}));
+                "prev":prev}));
             true
         });
     }
@@ -634,9 +666,11 @@ pub fn run(ctx: &Ctx) -> Outcome {
     let mut cov = Cov::new();
     let mut viol = vec![];
     let mut notes = vec![];
-    flag_words(&mut cov, &mut viol);
+    let low_bits = ctx.tier.pick(10u32, 13u32);
+    let max_frags = ctx.tier.pick(2usize, 3usize);
+    flag_words(&mut cov, &mut viol, low_bits);
     flags_vs_docs(&mut cov, &mut viol, &mut notes);
-    let cases = apply_cases();
+    let cases = apply_cases(max_frags);
     let mut apply_err = 0u64;
     for c in &cases {
         let frs = c["frags"].as_array().unwrap();
@@ -659,7 +693,7 @@ pub fn run(ctx: &Ctx) -> Outcome {
     cov.outcomes.insert("infer-cases".into(), icases.len() as u64);
     cov.sample(icases[icases.len() / 3].clone());
     cov.fill(&mut out,
-        "odometer over: 55x1024 flag words (10 low bits x {none, one bit of 10..63}); 91 fragment shapes x 96 switch combinations for apply_feature_flags; 6 version variants, 25+4 number pairs, all documented names x 3 case variants, 20 near-miss strings; all layouts of <=3 data files (9 file versions) in <=2 fragments x deprecated-v2 flag. non-trivial = word mixing known and unknown bits or non-zero known word / manifest with fragments and at least one flag-relevant content / known number pair / every file layout",
+&format!("odometer over: {}x{} flag words ({low_bits} low bits x {{none, one higher bit}}); {} manifest content shapes (<= {max_frags} fragments x 96 switch combinations) for apply_feature_flags; 6 version variants, 25+4 number pairs, all documented names x 3 case variants, 20 near-miss strings; all layouts of <=3 data files (9 file versions) in <=2 fragments x deprecated-v2 flag. non-trivial = word mixing known and unknown bits or non-zero known word / manifest with fragments and at least one flag-relevant content / known number pair / every file layout", 65 - low_bits, 1u64 << low_bits, cases.len()),
         true);
     out.set("doc_notes", json!(notes));
     out.assume("known flag set = OR of the FLAG_* constants of lance-table, cross-checked against the table in docs/src/format/table/versioning.md; reader/writer requirement per flag taken from that table (bit 32 from the constant's doc comment)");
